@@ -39,6 +39,8 @@ ignored()
   return s;
 }
 
+inline std::string& last_assert_function() {static std::string s; return s;}
+
 struct counters
 {
   unsigned long execs = 0, nontrivial = 0, asserts_ignored = 0;
@@ -77,7 +79,7 @@ on_assert(const assert_failure& e)
       ++ctr().asserts_ignored;
       return;
     }
-  fprintf(stderr, "VERIF-FINDING key=%s\n", e.site.c_str());
+  fprintf(stderr, "VERIF-FINDING key=%s\nVERIF-FINDING function=%s\n", e.site.c_str(), last_assert_function().c_str());
   fflush(stderr);
   ctr().dump();
   __builtin_trap();
@@ -89,9 +91,10 @@ void
 verif_assert_fail(const char* expr, const char* file, int, const char* func)
 {
   const char* base = strrchr(file, '/');
-  // a site is a (file, function) pair: several assertions of one function check the same piece of input
+  // keyed by source file (see vlib/fuzzprop.py:key_of); the function is kept for the report
   (void) expr;
-  std::string site = std::string("assert:") + (base ? base + 1 : file) + ":" + func;
+  std::string site = std::string("assert:") + (base ? base + 1 : file);
+  verif::last_assert_function() = func;
   throw verif::assert_failure(site);
 }
 #endif
